@@ -165,7 +165,7 @@ func runC08(p *Program, r *Report) {
 	for _, m := range []struct {
 		r string
 		n int
-	}{{"C08.R1", 9}, {"C08.R2", 5}, {"C08.R3", 5}, {"C08.R6", 4}} {
+	}{{"C08.R1", 9}, {"C08.R2", 5}, {"C08.R3", 5}, {"C08.R6", 4}, {"C08.R8", 8}} {
 		r.Min(m.r, m.n)
 	}
 	pv := NewProv(p)
@@ -419,6 +419,169 @@ func runC08(p *Program, r *Report) {
 	if nb == 0 {
 		r.OK("C08.R7", "template#backward-indices", "", "no index in the reachable functions is decremented by a loop")
 	}
+	// ---- R8 constant indices ------------------------------------------------------------------
+	// x[k] with a constant k on a slice or string needs len(x) > k; the test must dominate the access.
+	nc := 0
+	perFn := map[string]int{}
+	for _, f := range fl {
+		if f.Pkg == nil || (f.Pkg != tsp && f.Pkg.Pkg.Path() != pkgUtil) {
+			continue
+		}
+		for _, b := range f.Blocks {
+			for _, in := range b.Instrs {
+				var x, idx ssa.Value
+				switch y := in.(type) {
+				case *ssa.IndexAddr:
+					x, idx = y.X, y.Index
+				case *ssa.Lookup:
+					if isStringish(y.X.Type()) {
+						x, idx = y.X, y.Index
+					}
+				}
+				if x == nil {
+					continue
+				}
+				if _, isSlice := x.Type().Underlying().(*types.Slice); !isSlice && !isStringish(x.Type()) {
+					continue // arrays are bounded by their type
+				}
+				k, isConst := constInt(idx)
+				if !isConst {
+					continue
+				}
+				nc++
+				why, ok := lengthEstablished(x, k, b)
+				if !ok && k == 0 {
+					// triaged: text/template/parse never builds a command without arguments (parse.Tree.command reports
+					// "empty command" otherwise), so Args[0] of a parsed CommandNode exists
+					if ld, isLoad := x.(*ssa.UnOp); isLoad {
+						if fa, isFA := ld.X.(*ssa.FieldAddr); isFA {
+							if pt, isPtr := fa.X.Type().Underlying().(*types.Pointer); isPtr {
+								if nt, isNamed := pt.Elem().(*types.Named); isNamed && nt.Obj().Pkg() != nil && nt.Obj().Pkg().Path() == "text/template/parse" && nt.Obj().Name() == "CommandNode" && fieldName(fa.X.Type(), fa.Field) == "Args" {
+									why, ok = "parser invariant: a parsed command has at least one argument", true
+								}
+							}
+						}
+					}
+				}
+				name := strings.TrimPrefix(fnName(f), pkgTemplate+".")
+				perFn[name]++
+				c := fmt.Sprintf("const-index:%s#%d[%d]", name, perFn[name], k)
+				r.Check(ok, "C08.R8", c, p.Pos(in.Pos()), why, fmt.Sprintf("element %d is read although no test on the way shows that there are more than %d elements: the access panics with an index out of range for a shorter value (reachable from the total API)", k, k))
+			}
+		}
+	}
+	r.Analysed["constant_index_sites"] = nc
+}
+
+// lengthEstablished: on every path to block b the slice or string x is known to have more than k elements.
+func lengthEstablished(x ssa.Value, k int64, b *ssa.BasicBlock) (string, bool) {
+	// a literal built in place, a slice of a fixed array
+	if sl, ok := x.(*ssa.Slice); ok {
+		if al, ok := sl.X.(*ssa.Alloc); ok && sl.Low == nil && sl.High == nil {
+			if arr, ok := al.Type().Underlying().(*types.Pointer).Elem().Underlying().(*types.Array); ok && arr.Len() > k {
+				return "a literal with enough elements", true
+			}
+		}
+	}
+	if c, ok := x.(*ssa.Const); ok {
+		if s, isStr := constString(c); isStr && int64(len(s)) > k {
+			return "a constant that is long enough", true
+		}
+	}
+	sameVal := func(v ssa.Value) bool {
+		if v == x {
+			return true
+		}
+		// two loads of one field of one object, in a function that never stores to that field
+		a, ok1 := v.(*ssa.UnOp)
+		c, ok2 := x.(*ssa.UnOp)
+		if ok1 && ok2 && a.Op == token.MUL && c.Op == token.MUL {
+			fa, ok3 := a.X.(*ssa.FieldAddr)
+			fc, ok4 := c.X.(*ssa.FieldAddr)
+			if ok3 && ok4 && fa.Field == fc.Field && (fa.X == fc.X || sameLoad(fa.X, fc.X)) && !storesToFieldIn(b.Parent(), fa) {
+				return true
+			}
+		}
+		return false
+	}
+	lenOfX := func(v ssa.Value) bool {
+		a, ok := isLenOf(v)
+		return ok && sameVal(a)
+	}
+	for _, g := range GuardsOf(b) {
+		switch c := g.Cond.(type) {
+		case *ssa.BinOp:
+			l, r := c.X, c.Y
+			op := c.Op
+			if lenOfX(r) {
+				// k op len  ->  len op' k
+				l, r = r, l
+				switch op {
+				case token.LSS:
+					op = token.GTR
+				case token.LEQ:
+					op = token.GEQ
+				case token.GTR:
+					op = token.LSS
+				case token.GEQ:
+					op = token.LEQ
+				}
+			}
+			if !lenOfX(l) {
+				continue
+			}
+			n, ok := constInt(r)
+			if !ok {
+				continue
+			}
+			if !g.Pol {
+				switch op {
+				case token.LSS:
+					op = token.GEQ
+				case token.LEQ:
+					op = token.GTR
+				case token.GTR:
+					op = token.LEQ
+				case token.GEQ:
+					op = token.LSS
+				case token.EQL:
+					op = token.NEQ
+				case token.NEQ:
+					op = token.EQL
+				}
+			}
+			switch op {
+			case token.GTR:
+				if n >= k {
+					return fmt.Sprintf("under len > %d", n), true
+				}
+			case token.GEQ:
+				if n > k {
+					return fmt.Sprintf("under len >= %d", n), true
+				}
+			case token.EQL:
+				if n > k {
+					return fmt.Sprintf("under len == %d", n), true
+				}
+			case token.NEQ:
+				if n == 0 && k == 0 {
+					return "under len != 0", true
+				}
+			}
+		case *ssa.Call:
+			if f := staticCallee(c.Common()); f != nil && g.Pol && len(c.Common().Args) == 2 {
+				switch fnName(f) {
+				case "strings.HasPrefix", "bytes.HasPrefix", "strings.HasSuffix", "bytes.HasSuffix":
+					if sameVal(c.Common().Args[0]) {
+						if s, ok := constString(c.Common().Args[1]); ok && int64(len(s)) > k {
+							return "under a prefix/suffix test with a long enough constant", true
+						}
+					}
+				}
+			}
+		}
+	}
+	return "", false
 }
 
 // writesParseMode: does anything in the repository or text/template set
@@ -760,4 +923,32 @@ func isExhaustiveStateDispatcher(p *Program, f *ssa.Function) bool {
 		}
 	}
 	return true
+}
+
+func sameLoad(a, b ssa.Value) bool {
+	x, ok1 := a.(*ssa.UnOp)
+	y, ok2 := b.(*ssa.UnOp)
+	if !ok1 || !ok2 || x.Op != token.MUL || y.Op != token.MUL {
+		return false
+	}
+	if x.X == y.X {
+		// two loads of one local: the same if it is stored once
+		if al, ok := x.X.(*ssa.Alloc); ok {
+			return singleStoreLoose(al) != nil
+		}
+	}
+	return false
+}
+
+func storesToFieldIn(fn *ssa.Function, fa *ssa.FieldAddr) bool {
+	for _, b := range fn.Blocks {
+		for _, in := range b.Instrs {
+			if st, ok := in.(*ssa.Store); ok {
+				if g, ok := st.Addr.(*ssa.FieldAddr); ok && g.Field == fa.Field && types.Identical(g.X.Type(), fa.X.Type()) {
+					return true
+				}
+			}
+		}
+	}
+	return false
 }
